@@ -100,6 +100,8 @@ pub struct Profile {
     /// end every run with the C04 probe
     pub end_probe: bool,
     pub max_universe: u32,
+    /// inject panicking destructors into early-dropped drain_filter iterators (C09)
+    pub drop_panics: bool,
 }
 
 impl Profile {
@@ -120,6 +122,7 @@ impl Profile {
             prelude_pct: 75,
             end_probe: false,
             max_universe: 4096,
+            drop_panics: false,
         }
     }
 }
@@ -510,7 +513,10 @@ impl<'a> Gen<'a> {
                 let pred = self.pred();
                 self.apply_pred_shadow(m, false, &pred, false);
                 let mutate = if self.rng.chance(1, 2) { Some(self.payload() << 12) } else { None };
-                Op::DrainFilter { m: mu, pred, mutate, consume: self.consume() }
+                let consume = self.consume();
+                // fault: a destructor of a removed value panics while the iterator is being dropped
+                let drop_panic = if matches!(consume, Consume::DropAfter(_)) && self.prof.drop_panics && self.rng.chance(1, 4) { Some(self.rng.range(1, 4) as u32) } else { None };
+                Op::DrainFilter { m: mu, pred, mutate, consume, drop_panic }
             }
             G::Drain => {
                 self.shadow.maps[m].clear();
